@@ -147,6 +147,74 @@ def third_eval(x, z):
         return n, [{'key': f'exception {type(ex).__name__} @ {site_of(ex)} : third value', 'detail': repr((x, z)) + traceback.format_exc()[-900:]}]
 
 
+# ---- documents in which one container object occurs twice (YAML anchors / aliases, binary plist object references) ----
+SHAPES = ('list2', 'dict2', 'nest')
+ALIAS_FORMATS = ('json', 'json5', 'yaml-aliased', 'yaml-flat', 'plist', 'plist-binary')
+
+
+def shaped(shape, x):
+    if shape == 'list2':
+        return [x, x]
+    if shape == 'dict2':
+        return {'a': x, 'no': x}
+    return [x, [x]]
+
+
+def alias_load(fmt, shape, inner, opt):
+    """The document shaped(shape, inner) written so that the format's own way of sharing one object is used."""
+    import yaml
+    from graphtage import graphtage as gg
+    x = list(inner)
+    doc = shaped(shape, x)                                   # the same list object twice
+    flat = json.loads(json.dumps(doc))                        # the same data without sharing
+    if fmt in ('json', 'json5'):
+        data, typ = json.dumps(doc), fmt
+    elif fmt == 'yaml-aliased':
+        data, typ = yaml.safe_dump(doc), 'yaml'             # emits &id001 / *id001
+        assert '*id' in data
+    elif fmt == 'yaml-flat':
+        data, typ = yaml.safe_dump(flat), 'yaml'
+    elif fmt == 'plist':
+        data, typ = plistlib.dumps(doc), 'plist'
+    else:
+        data, typ = plistlib.dumps(doc, fmt=plistlib.FMT_BINARY), 'plist'     # containers are written once and referenced
+    p = cli.write_file(pairspace.tmpdir(), 'c09al' + EXT[typ], data)
+    return gg.FILETYPES_BY_TYPENAME[typ].build_tree(p, build_options(tuple(opt)))
+
+
+def aliased_eval(shape, inner, other):
+    n = 0
+    fails = {}
+    try:
+        with time_limit(CASE_TIMEOUT):
+            for opt in (('auto', 'on'), ('auto', 'off'), ('auto', 'samelen'), ('none', 'off')):
+                tx = {f: alias_load(f, shape, inner, opt) for f in ALIAS_FORMATS}
+                want = shaped(shape, list(inner))
+                for f in ALIAS_FORMATS:
+                    if canon(plain(tx[f])) != canon(want):
+                        fails.setdefault(f'loaded_value_differs @ {f} loader : shared container', f'{want!r} loads as {plain(tx[f])!r}')
+                tz = {f: alias_load(f, shape, other, opt) for f in ('json', 'yaml-aliased')}
+                ref = None
+                for f in ALIAS_FORMATS:
+                    for g in tz:
+                        c, cls = cost(tx[f], tz[g])
+                        n += 1
+                        if ref is None:
+                            ref = (c, f, g)
+                        elif c != ref[0]:
+                            fails.setdefault(f'cost_depends_on_formats @ {cls} : from {f} to {g}, shared container',
+                                             f'{want!r} vs {shaped(shape, list(other))!r} (dict={opt[0]}, lists={opt[1]}): '
+                                             f'{ref[1]}->{ref[2]} costs {ref[0]}, {f}->{g} costs {c}')
+                if list(inner) == list(other) and ref and ref[0] != 0:
+                    fails.setdefault('same_data_not_equal @ shared container', f'{want!r}: cost {ref[0]}')
+            return n, [{'key': k, 'detail': d} for k, d in fails.items()]
+    except CaseTimeout:
+        return n, [{'key': 'timeout @ diff : shared container', 'detail': repr((shape, inner, other))}]
+    except Exception as ex:  # noqa
+        import traceback
+        return n, [{'key': f'exception {type(ex).__name__} @ {site_of(ex)} : shared container', 'detail': repr((shape, inner, other)) + traceback.format_exc()[-900:]}]
+
+
 def cli_eval(v):
     n = 0
     fails = {}
@@ -186,6 +254,13 @@ def jobs(tier):
             if canon(x) != canon(z):
                 out.append(('third', [x, z]))
     out += [('cli', v) for v in values(3)]
+    inners = []
+    for k in (1, 2, 3):
+        inners.extend(list(t) for t in itertools.product((1, 2) if q else (1, 2, 'a'), repeat=k))
+    for shape in SHAPES:
+        for x in inners:
+            for z in inners:
+                out.append(('aliased', [shape, x, z]))
     return out
 
 
@@ -199,6 +274,8 @@ def _shard(i, n, tier, payload):
             k, fails = same_eval(v)
         elif kind == 'third':
             k, fails = third_eval(v[0], v[1])
+        elif kind == 'aliased':
+            k, fails = aliased_eval(v[0], v[1], v[2])
         else:
             k, fails = cli_eval(v)
         r.evaluations += k
@@ -223,6 +300,8 @@ def replay(case):
         fails = same_eval(v)[1]
     elif case['kind'] == 'third':
         fails = third_eval(v[0], v[1])[1]
+    elif case['kind'] == 'aliased':
+        fails = aliased_eval(v[0], v[1], v[2])[1]
     else:
         fails = cli_eval(v)[1]
     for f in fails:
